@@ -66,9 +66,28 @@ func samePortion(a, b string) bool {
 	x, ok1 := ratValue(a)
 	y, ok2 := ratValue(b)
 	if !ok1 || !ok2 {
+		// n/0 in any spelling (`1/00`, `01 / 0`): the same numerator over zero
+		if n1, z1 := overZero(a); z1 {
+			if n2, z2 := overZero(b); z2 {
+				return n1.Cmp(n2) == 0
+			}
+		}
 		return a == b
 	}
 	return x.Cmp(y) == 0
+}
+
+func overZero(text string) (*big.Int, bool) {
+	parts := strings.Split(text, "/")
+	if len(parts) != 2 {
+		return nil, false
+	}
+	n, ok1 := new(big.Int).SetString(strings.TrimSpace(parts[0]), 10)
+	d, ok2 := new(big.Int).SetString(strings.TrimSpace(parts[1]), 10)
+	if !ok1 || !ok2 || d.Sign() != 0 {
+		return nil, false
+	}
+	return n, true
 }
 
 func sameNumber(a, b string) bool {
